@@ -42,10 +42,12 @@ var xwidths = []uint{1, 8, 16, 32, 64}
 
 type xgen struct {
 	r    *rng
+	m    *ir.Module
 	b    *ir.Block
 	pool []xval
 	n    int
 	desc []string
+	now  string // the construction under way (named in the report when a constructor rejects it)
 }
 
 func (g *xgen) name() string {
@@ -113,7 +115,59 @@ func (g *xgen) step() {
 	w := xwidths[1+g.r.intn(4)]
 	a, c := g.pick(w), g.pick(w)
 	m := xmask(w)
-	switch g.r.intn(22) {
+	switch g.r.intn(24) {
+	case 22, 23:
+		// through memory in a non-default address space: a global variable whose AddrSpace is assigned after its
+		// constructor (the only way the API offers), an address computed from it, stores and loads through both,
+		// an atomic read-modify-write and a compare-and-exchange on the same cell
+		if w < 8 {
+			w = 8
+		}
+		a, c = g.pick(w), g.pick(w)
+		m = xmask(w)
+		as := []types.AddrSpace{1, 2, 5, 100}[g.r.intn(4)]
+		t := types.NewInt(uint64(w))
+		g.now = fmt.Sprintf("global [3 x i%d] in addrspace(%d); getelementptr, store, load, atomicrmw add, cmpxchg through it", w, as)
+		arr := types.NewArray(3, t)
+		glob := g.m.NewGlobalDef(fmt.Sprintf("as%d", g.n), constant.NewZeroInitializer(arr))
+		g.n++
+		glob.AddrSpace = as
+		i, j := g.r.intn(3), g.r.intn(3)
+		zero := constant.NewInt(types.I32, 0)
+		p1 := b.NewGetElementPtr(arr, glob, zero, constant.NewInt(types.I32, int64(i)))
+		p1.SetName(g.name())
+		var p2 value.Value = constant.NewGetElementPtr(arr, glob, zero, constant.NewInt(types.I64, int64(j)))
+		if g.r.coin() {
+			p2i := b.NewGetElementPtr(arr, glob, zero, constant.NewInt(types.I64, int64(j)))
+			p2i.SetName(g.name())
+			p2 = p2i
+		}
+		b.NewStore(a.v, p1)
+		b.NewStore(c.v, p2)
+		x := a.x
+		if i == j {
+			x = c.x
+		}
+		ld := g.add(b.NewLoad(t, p1), w, x, "addrspace global/gep/store/load")
+		// old := atomicrmw add p1, c ; the cell now holds x + c
+		old := g.add(b.NewAtomicRMW(enum.AtomicOpAdd, p1, c.v, enum.AtomicOrderingSequentiallyConsistent), w, ld.x, "addrspace atomicrmw (old value)")
+		sum := (old.x + c.x) & m
+		// cmpxchg p1, expected, new: succeeds exactly when expected is what the cell holds
+		exp := g.pick(w)
+		if g.r.coin() {
+			exp = xval{constant.NewInt(t, xsigned(w, sum)), w, sum}
+		}
+		cx := b.NewCmpXchg(p1, exp.v, a.v, enum.AtomicOrderingSequentiallyConsistent, enum.AtomicOrderingSequentiallyConsistent)
+		cx.SetName(g.name())
+		ok := uint64(0)
+		after := sum
+		if exp.x == sum {
+			ok, after = 1, a.x
+		}
+		g.add(b.NewExtractValue(cx, 0), w, sum, "addrspace cmpxchg (loaded value)")
+		g.add(b.NewExtractValue(cx, 1), 1, ok, "addrspace cmpxchg (success)")
+		g.add(b.NewLoad(t, p1), w, after, "addrspace load after cmpxchg")
+		g.now = ""
 	case 0:
 		g.add(b.NewAdd(a.v, c.v), w, a.x+c.x, "add")
 	case 1:
@@ -264,8 +318,9 @@ func (g *xgen) step() {
 
 // c03ExecModule builds one module: a helper function, a main with straight-line code, a diamond with a phi, a
 // call, and a final count of the results that differ from the reference
-func c03ExecModule(r *rng) (*ir.Module, string) {
+func c03ExecModule(r *rng, g *xgen) *ir.Module {
 	m := ir.NewModule()
+	g.m = m
 	// helper: h(a, b) = a * 3 - b
 	h := m.NewFunc("h", types.I32, ir.NewParam("a", types.I32), ir.NewParam("", types.I32))
 	hb := h.NewBlock("")
@@ -273,7 +328,7 @@ func c03ExecModule(r *rng) (*ir.Module, string) {
 	hb.NewRet(hb.NewSub(t3, h.Params[1]))
 	f := m.NewFunc("main", types.I32)
 	entry := f.NewBlock("entry")
-	g := &xgen{r: r, b: entry}
+	g.b = entry
 	for i := 0; i < 10+r.intn(25); i++ {
 		g.step()
 	}
@@ -338,7 +393,7 @@ func c03ExecModule(r *rng) (*ir.Module, string) {
 		cnt = after.NewAdd(cnt, z)
 	}
 	after.NewRet(cnt)
-	return m, strings.Join(g.desc, ", ")
+	return m
 }
 
 func c03Exec(c *config, r *rng) {
@@ -352,15 +407,19 @@ func c03Exec(c *config, r *rng) {
 	n := 60 * c.scale
 	for i := 0; i < n; i++ {
 		var m *ir.Module
-		var desc, text string
+		var text string
+		g := &xgen{r: r}
 		oc, msg := guard(func() error {
-			m, desc = c03ExecModule(r)
+			m = c03ExecModule(r, g)
 			text = m.String()
 			return nil
 		})
+		desc := strings.Join(g.desc, ", ")
 		o.Stat("exec.programs")
 		if oc != ocOk {
-			o.Fail("executes_as_constructed", "", "building or printing the program crashes", map[string]interface{}{"msg": msg})
+			// the recipe: the kinds of the steps constructed so far, then the step whose constructor gave up
+			o.Fail("executes_as_constructed", "", "a well-typed construction is rejected by the constructor (or printing the program crashes)",
+				map[string]interface{}{"msg": msg, "constructed_so_far": desc, "rejected": g.now})
 			continue
 		}
 		path := filepath.Join(dir, "exec.ll")
